@@ -202,3 +202,9 @@ func OnAtomicLoad(f func()) {}
 // SelectNondet: when on, a select with several ready cases explores each of
 // them (Go chooses at random); when off the first ready case in source order wins.
 func SelectNondet(on bool) {}
+
+// SelectNondetBudget bounds the nondeterminism of SelectNondet: only the next n
+// select statements choose freely among their ready cases, later ones take the
+// first ready case in source order (keeps wait loops with an always-ready
+// ticker finite).
+func SelectNondetBudget(n int) {}
